@@ -1,7 +1,7 @@
 (* Run/Dispatch.v — one entry point for the extracted runner: kind + arguments -> rendered result.
    All kind-specific glue is here so the OCaml driver stays generic.  The only effectful thing in
    the runner is [oracle], a question/answer call-back answered by the Go standard library. *)
-From FDO Require Export Run.Sexp Rv.RvImpl Cose.Sign1.
+From FDO Require Export Run.Sexp Rv.RvImpl Cose.Sign1 Kex.Crypter.
 Local Open Scope N_scope.
 
 Definition unhexnum (b : bytes) : option N :=
@@ -160,6 +160,43 @@ Section Dispatch.
       end
     else None.
 
+  (* ---- session crypter ---- *)
+  Definition q3 (name : bstr) (a b c d : bytes) : bytes :=
+    oracle (s name ++ s " b:"%bs ++ hex a ++ s " b:"%bs ++ hex b ++ s " b:"%bs ++ hex c ++ s " b:"%bs ++ hex d).
+  Definition ans_bytes (r : bytes) : option bytes :=
+    match r with
+    | c :: _ => if byte_eqb c (byte_of_N 111) then unhex (skipn 3 r) else None     (* "ok <hex>" *)
+    | [] => None
+    end.
+  Definition O_aead_open (k iv aad ct : bytes) : option bytes := ans_bytes (q3 "aead_open"%bs k iv aad ct).
+  Definition O_aead_seal (k iv aad pt : bytes) : bytes := match ans_bytes (q3 "aead_seal"%bs k iv aad pt) with Some x => x | None => [] end.
+  Definition O_ctr (k iv d : bytes) : bytes := match ans_bytes (q3 "ctr"%bs k iv d []) with Some x => x | None => [] end.
+  Definition O_cbc_dec (k iv d : bytes) : bytes := match ans_bytes (q3 "cbc_dec"%bs k iv d []) with Some x => x | None => [] end.
+  Definition O_cbc_enc (k iv d : bytes) : bytes := match ans_bytes (q3 "cbc_enc"%bs k iv d []) with Some x => x | None => [] end.
+
+  Definition run_kex (kind : bytes) (args : list arg) : option bytes :=
+    if bytes_eqb kind (s "kex.decrypt"%bs) then
+      match args with
+      | [AZ id; AB sek; AB svk; AB wire] =>
+        match suite_of id with
+        | Some su => Some (render_outcome (fun b => s "b:"%bs ++ hex b)
+                             (crypter_decrypt O_der O_rfc3339 O_hmac O_aead_open O_ctr O_cbc_dec su sek svk wire))
+        | None => Some (s "panic 5"%bs)
+        end
+      | _ => Some bad_args
+      end
+    else if bytes_eqb kind (s "kex.encrypt"%bs) then
+      match args with
+      | [AZ id; AB sek; AB svk; AB iv; AB pt] =>
+        match suite_of id with
+        | Some su => Some (render_outcome (fun b => s "b:"%bs ++ hex b)
+                             (crypter_encrypt O_hmac O_aead_seal O_ctr O_cbc_enc su sek svk iv pt))
+        | None => Some (s "panic 5"%bs)
+        end
+      | _ => Some bad_args
+      end
+    else None.
+
   Definition dispatch (kind : bytes) (args : list arg) : bytes :=
     match run_cbor kind args with
     | Some r => r
@@ -169,7 +206,11 @@ Section Dispatch.
       | None =>
         match run_cose kind args with
         | Some r => r
-        | None => s "unknown-kind"%bs
+        | None =>
+          match run_kex kind args with
+          | Some r => r
+          | None => s "unknown-kind"%bs
+          end
         end
       end
     end.
